@@ -94,6 +94,10 @@ var predeclared = map[string]func() *Statement{
 	"nil": Nil, "err": Err, "any": Any, "comparable": Comparable,
 }
 
+// builtinCalls: built-in functions that have an element of their own in the DSL.
+var builtinCalls = map[string]string{"append": "Append", "cap": "Cap", "clear": "Clear", "close": "Close", "complex": "Complex", "copy": "Copy", "delete": "Delete", "imag": "Imag",
+	"len": "Len", "make": "Make", "max": "Max", "min": "Min", "new": "New", "panic": "Panic", "print": "Print", "println": "Println", "real": "Real", "recover": "Recover"}
+
 func (c *Conv) ident(id *ast.Ident) *Statement {
 	if f, ok := predeclared[id.Name]; ok {
 		return f()
@@ -228,6 +232,26 @@ func (c *Conv) expr(e ast.Expr) *Statement {
 		args := c.exprs(e.Args)
 		if e.Ellipsis.IsValid() && len(args) > 0 {
 			args[len(args)-1] = args[len(args)-1].(*Statement).Op("...")
+		}
+		// a call of a built-in function is built with the DSL's element for that built-in
+		if id, ok := e.Fun.(*ast.Ident); ok {
+			if name, ok := builtinCalls[id.Name]; ok {
+				st := newSt()
+				m := reflect.ValueOf(st).MethodByName(name)
+				switch {
+				case !m.IsValid():
+				case m.Type().IsVariadic():
+					return c.grp(st, name, args...)
+				case m.Type().NumIn() == len(args):
+					in := make([]reflect.Value, len(args))
+					for i, a := range args {
+						in[i] = reflect.ValueOf(a)
+					}
+					m.Call(in)
+					c.Sites++
+					return st
+				}
+			}
 		}
 		return c.grp(c.expr(e.Fun), "Call", args...)
 	case *ast.IndexExpr:
